@@ -270,7 +270,7 @@ func init() {
 			"oracle: recover(), process death, CPU budget per input; distinct = distinct diagnostic messages reached",
 		NumCases: func(tier string) int {
 			if tier == "thorough" {
-				return 3_000_000
+				return 600_000
 			}
 			return 100_000
 		},
